@@ -191,6 +191,7 @@ def parseOp (h : Host) : List String → Option Line
   | ["tip", n] => do some (.op (.tip (← nat? n)))
   | ["time", n] => do some (.op (.time (← nat? n)))
   | ["sector", r] => do some (.op (.sector (← nat? r)))
+  | ["sectorerr", r, b] => do some (.op (.sectorErr (← nat? r) (b == "1")))
   | ["form", cid, body, rk, hk] => do
     let b ← parseBody body
     some (.op (.form (← nat? cid) { body := b, renterSig := .mk (← nat? rk) (.contract b), hostSig := .mk (← nat? hk) (.contract b) }))
@@ -268,7 +269,8 @@ def flatten (ks : List Nat) (h : Host) : Host :=
            accounts := tableOf 0 (ks.map fun k => (k, h.accounts k)),
            pools := tableOf none (ks.map fun k => (k, h.pools k)),
            attached := tableOf [] (ks.map fun k => (k, h.attached k)),
-           sectors := tableOf false (ks.map fun k => (k, h.sectors k)) }
+           sectors := tableOf false (ks.map fun k => (k, h.sectors k)),
+           sectorErr := tableOf false (ks.map fun k => (k, h.sectorErr k)) }
 
 /-- every small natural written anywhere in a line (identifiers are small; amounts and times that
 happen to be small only add harmless keys) -/
